@@ -643,7 +643,9 @@ func (t *State) verifyTxRWSets(tx *pb.Transaction) (bool, error) {
 			return false, ctxErr
 		}
 		// 判断合约调用的返回码
-		if ctxResponse.Status >= 400 && i < len(reservedRequests) {
+		// a call that answers with an error status has failed, whether it is a reserved request or
+		// not: the writes it made before failing must not be committed
+		if ctxResponse.Status >= 400 {
 			ctx.Release()
 			t.log.Error("verifyTxRWSets Invoke error", "status", ctxResponse.Status, "contractName", tmpReq.GetContractName())
 			return false, errors.New(ctxResponse.Message)
